@@ -69,7 +69,7 @@ func TestC17(t *testing.T) {
 	Ev.Component("patcher (skipFile / processRsync / processBsdiff), fresh bowl, rediff", "real")
 	Ev.Component("bowl (recording wrapper), old-build pool (recording wrapper), patch source", "simulated / recorded")
 	Prop(t, "C17", func(rt *rapid.T) {
-		pair := GenPair(rt, GenOpts{Links: true, EmptyDirs: true, LowEntropy: true, MaxMid: 200 * KiB})
+		pair := GenPair(rt, GenOpts{Links: true, EmptyDirs: true, LowEntropy: true, MaxMid: 200 * KiB, KindChange: rapid.IntRange(0, 2).Draw(rt, "kindchanges") == 0})
 		if rapid.IntRange(0, 9).Draw(rt, "manyfiles") == 0 {
 			// a new build with many more files than the old one (indices far beyond the old build's)
 			n := rapid.IntRange(60, 200).Draw(rt, "nmanyfiles")
@@ -107,6 +107,21 @@ func TestC17(t *testing.T) {
 			pair.New.Normalize()
 			Ev.Probe("new_files_derived_from_two_old_files_of_one_size")
 		}
+		modeShape := rapid.IntRange(0, 7).Draw(rt, "modeshape") == 0 && canPlace(pair.Old, "km/t.bin") && canPlace(pair.New, "km/t.bin")
+		if modeShape {
+			// an old symlink that becomes a regular file with other permissions than the file it used
+			// to point to; only the latter is selected
+			tb := Bytes(rapid.Uint64().Draw(rt, "kmseed"), 3000)
+			texec := rapid.Bool().Draw(rt, "kmexec")
+			pair.Old["km/t.bin"] = &Entry{Kind: KFile, Data: tb, Exec: texec}
+			pair.Old["km/z-link"] = &Entry{Kind: KLink, Dest: "t.bin"}
+			pair.New["km/t.bin"] = &Entry{Kind: KFile, Data: append(append([]byte{}, tb...), 'x'), Exec: texec}
+			pair.New["km/z-link"] = &Entry{Kind: KFile, Data: Bytes(5, 100), Exec: !texec}
+			pair.Meta["km/t.bin"] = FileMeta{From: "km/t.bin", Edits: 1, Introduced: 1, Op: "append"}
+			pair.Meta["km/z-link"] = FileMeta{Op: "symlink becomes a file"}
+			pair.Old.Normalize()
+			pair.New.Normalize()
+		}
 		dir, cleanup := RunDir()
 		defer cleanup()
 		oldDir, newDir, outDir := filepath.Join(dir, "old"), filepath.Join(dir, "new"), filepath.Join(dir, "out")
@@ -133,6 +148,16 @@ func TestC17(t *testing.T) {
 				}
 			}
 		}
+		if modeShape {
+			for i, f := range source.Files {
+				switch f.Path {
+				case "km/t.bin":
+					wl[int64(i)] = true
+				case "km/z-link":
+					delete(wl, int64(i))
+				}
+			}
+		}
 		if family && rapid.IntRange(0, 3).Draw(rt, "famskipmiddle") != 0 {
 			for i, f := range source.Files {
 				switch f.Path {
@@ -146,6 +171,19 @@ func TestC17(t *testing.T) {
 		wlPaths := map[string]bool{}
 		for i := range wl {
 			wlPaths[source.Files[i].Path] = true
+		}
+		// the map that is handed over may also say "false" in so many words for some of the others
+		passed := map[int64]bool{}
+		for i := range wl {
+			passed[i] = true
+		}
+		if rapid.IntRange(0, 2).Draw(rt, "explicitfalse") == 0 {
+			for i := 0; i < n; i++ {
+				if !wl[int64(i)] && rapid.Bool().Draw(rt, "wlfalse") {
+					passed[int64(i)] = false
+				}
+			}
+			Ev.ProbeIf(len(passed) > len(wl), "whitelist_map_with_explicit_false_entries")
 		}
 
 		// the application may be stopped at checkpoints and resumed on the same patcher, like the
@@ -164,7 +202,7 @@ func TestC17(t *testing.T) {
 		cons := &state.Consumer{OnProgressLabel: func(label string) { current = label }}
 		ar := ApplyFresh(patch, oldDir, outDir, ApplyOpts{
 			PatchSlice: drawSlicer(rt, "patchslice"),
-			Whitelist:  wl,
+			Whitelist:  passed,
 			Save:       ssc.consumer(),
 			OnStop:     ssc.onStop(),
 			Consumer:   cons,
@@ -226,6 +264,34 @@ func TestC17(t *testing.T) {
 				Violation(rt, "C17/wrong-content", "whitelisted file %s differs from the new build (got len %d, want %d) (patch %s)", p, l, len(pair.New[p].Data), desc)
 				return
 			}
+		}
+		// the same partial application done in place (overlay bowl over a copy of the old build): the
+		// whitelisted files come out as full application makes them, content and executable bit
+		if pair.HasKnownInPlaceShape() == false && (rapid.IntRange(0, 3).Draw(rt, "inplacetoo") == 0 || modeShape) {
+			inDir, stage := filepath.Join(dir, "inplace"), filepath.Join(dir, "stage")
+			Must(pair.Old.Materialize(inDir), "materialize in-place copy")
+			ir := ApplyInPlace(patch, inDir, stage, ApplyOpts{Whitelist: passed})
+			if ir.Panic != "" || ir.Err != nil {
+				Violation(rt, "C17/apply-failed", "whitelisted in-place apply failed at %s: %v %s (patch %s, whitelist %v)", ir.Stage, ir.Err, ir.Panic, desc, keys(wl))
+				return
+			}
+			if ir.Touched != int64(len(wl)) {
+				Violation(rt, "C17/touched-count", "in place: GetTouchedFiles = %d, whitelist has %d (patch %s)", ir.Touched, len(wl), desc)
+				return
+			}
+			igot := MustSnapshot(inDir).Tree
+			for p := range wlPaths {
+				e, ok := igot[p]
+				if !ok || e.Kind != KFile || !bytes.Equal(e.Data, pair.New[p].Data) {
+					Violation(rt, "C17/wrong-content", "in place: whitelisted file %s differs from the new build (present %v) (patch %s, whitelist %v)", p, ok, desc, keys(wl))
+					return
+				}
+				if e.Exec != pair.New[p].Exec {
+					Violation(rt, "C17/wrong-mode", "in place: whitelisted file %s has executable=%v, full application makes it %v (patch %s, whitelist %v)", p, e.Exec, pair.New[p].Exec, desc, keys(wl))
+					return
+				}
+			}
+			Ev.Probe("partial_application_in_place")
 		}
 		Ev.ProbeIf(ar.Stops > 0, "stopped_and_resumed_on_the_same_patcher")
 		Ev.Fault("stop_resume_same_patcher", ar.Stops)
